@@ -231,7 +231,7 @@ ArgsSmall(r) ==
     [] r.act \in {"with_scheme", "with_host", "with_path", "with_name", "with_suffix", "truediv"} -> TextSmall(r.args.v)
     [] r.act \in {"with_user", "with_password", "with_fragment"} -> (r.args.v = <<>> \/ TextSmall(r.args.v[1]))
     [] r.act = "joinpath" -> \A i \in 1..Len(r.args.vs) : TextSmall(r.args.vs[i])
-    [] r.act \in {"with_query", "extend_query"} -> TextSmall(r.args.q.s) /\ Len(r.args.q.pairs) <= 8
+    [] r.act \in {"with_query", "extend_query", "update_query"} -> TextSmall(r.args.q.s) /\ Len(r.args.q.pairs) <= 8
     [] OTHER -> TRUE
 Agreement(r) ==
   IF r.act \notin Modelled \/ "out" \notin DOMAIN r \/ "be" \notin DOMAIN r THEN "n/a"
